@@ -89,6 +89,10 @@ func c14Ops() []c14Op {
 		// names whose concatenations coincide: type "a"+"bc" and type "ab"+"c"
 		two("a", "bc", "ab", "c"),
 		two("ab", "c", "a", "bc"),
+		// one half has no name: refused, and nothing of the other half stays behind
+		two("a", "r", "b", ""),
+		two("b", "", "a", "r"),
+		two("a", "", "a", "s"),
 	)
 	return ops
 }
@@ -167,7 +171,7 @@ func (m *c14Model) apply(o c14Op) (wantErr bool, hasErr bool) {
 		r := o.rel
 		inv := r.Invert()
 		from, to := m.find(r.FromType), m.find(r.ToType)
-		if from == nil || to == nil {
+		if from == nil || to == nil || r.FromName == "" || r.ToName == "" {
 			return true, true
 		}
 		if _, dup := from.rels[r.FromName]; dup {
@@ -370,7 +374,7 @@ func init() {
 	sort.Strings(names)
 	Register(&Prop{
 		ID: "C14",
-		Rule: fmt.Sprintf("Engine B: breadth-first search over ALL histories (depth <= 6 quick / 8 thorough) of %d schema-edit operations (AddType/RemoveType over {a,b,c,\"\",ab,\" \",\"a \",unknown}; AddAttr with valid, empty-named, invalid-kind attributes; RemoveAttr (incl. by the name of a relationship); AddRel with valid, duplicate, empty-named, empty-target relationships, relationships given from the other side (FromType another type) and one-sided declarations naming an inverse; RemoveRel (incl. by the name of an attribute); AddTwoWayRel in normalised and non-normalised direction, within one type, with a missing type and taken names) on a real Schema, de-duplicated by a deep heap snapshot (type ORDER is part of the state, so first/middle/last removals are distinct). Oracle on every transition: no panic, error iff the list-of-types model says so, error => snapshot unchanged, Schema.Types == model, well-formedness invariant, HasType/GetType agree with the list. A state is non-trivial when it holds at least one type", len(c14Ops())),
+		Rule: fmt.Sprintf("Engine B: breadth-first search over ALL histories (depth <= 6 quick / 8 thorough) of %d schema-edit operations (AddType/RemoveType over {a,b,c,\"\",ab,\" \",\"a \",unknown}; AddAttr with valid, empty-named, invalid-kind attributes; RemoveAttr (incl. by the name of a relationship); AddRel with valid, duplicate, empty-named, empty-target relationships, relationships given from the other side (FromType another type) and one-sided declarations naming an inverse; RemoveRel (incl. by the name of an attribute); AddTwoWayRel in normalised and non-normalised direction, within one type, with a missing type, taken names and an empty name on one side) on a real Schema, de-duplicated by a deep heap snapshot (type ORDER is part of the state, so first/middle/last removals are distinct). Oracle on every transition: no panic, error iff the list-of-types model says so, error => snapshot unchanged, Schema.Types == model, well-formedness invariant, HasType/GetType agree with the list. A state is non-trivial when it holds at least one type", len(c14Ops())),
 		Assumptions: []string{"a relationship that is its own inverse is outside the domain (as stated)"},
 		Harnesses: []Harness{{
 			Name: "C14/edits",
